@@ -162,6 +162,10 @@ func (r *BinaryCopyReader) Read(ctx context.Context) (_ []any, err error) {
 		return nil, err
 	}
 
+	if int(fields) != len(r.scanners) {
+		return nil, fmt.Errorf("unexpected field count, %d columns are defined inside the given table but %d fields were given", len(r.scanners), fields)
+	}
+
 	row := make([]any, fields)
 	for index := range fields {
 		length, err := r.reader.GetUint32()
